@@ -473,6 +473,20 @@ def check(chk):
         w = cfg.must_pass(n.id, [x.id for x, _ in wd] + nolimit) if not any(cfg.dominates(x.id, n.id) for x, _ in wd) else None
         chk.ob("PAIR-10", "enabling a coil with max_hold_duration arms the watchdog on every path", w is None, f.where(c),
                path=cfg.fmt_path(w, DRV) if w else None, construct=f.ident, text="watchdog armed")
+    # ... and at once: between switching the coil on and arming its watchdog nothing runs that can fail (a notification that raises would leave
+    # the coil on with no limit).  Only the test of the configured limit may lie between the two.
+    for n, c in en:
+        for x, _ in wd:
+            if cfg.dominates(x.id, n.id):
+                continue
+            between = [b for b in cfg.nodes if b.id not in (n.id, x.id) and b.kind in ("stmt", "test", "with", "loop") and
+                       cfg.path_avoiding(n.id, [b.id], [x.id]) is not None and cfg.path_avoiding(b.id, [x.id], [n.id]) is not None]
+            # (queries of the delay manager itself - `if not self.delay.check(name)` - belong to the arming)
+            risky = [b for b in between if [c_ for c_ in b.calls() if not (isinstance(c_.func, ast.Attribute) and src(c_.func.value) == "self.delay")]
+                     and not cfg._only_logs(b)]
+            chk.ob("PAIR-10", "nothing that can fail runs between switching the coil on and arming its max_hold_duration watchdog", not risky,
+                   f.where(risky[0].ast) if risky else f.where(c), detail="`%s` runs first: if it raises the coil stays on without a limit"
+                   % (short(risky[0].ast, 80) if risky else ""), construct=f.ident, text="call between enable and watchdog")
     for n, c in wd:
         ms = kwarg(c, "ms") or (c.args[0] if c.args else None)
         d = units.dim(ms, f, units.env_for(f))
@@ -578,6 +592,7 @@ def battery():
     from sa.battery import M
     D = DRV
     return [
+        M("watchdog armed after the BCP notification", DRV, "        if self.config['max_hold_duration']:\n            self.delay.add_if_doesnt_exist(self.config['max_hold_duration'] * 1000, self._enable_limit_reached,\n                                           \"enable_limit_reached\")\n\n        # inform bcp clients\n        self.machine.bcp.interface.send_driver_event(action=\"enable\", name=self.name, number=self.config['number'],\n                                                     pulse_ms=pulse_ms, pulse_power=pulse_power, hold_power=hold_power)\n", "        # inform bcp clients\n        self.machine.bcp.interface.send_driver_event(action=\"enable\", name=self.name, number=self.config['number'],\n                                                     pulse_ms=pulse_ms, pulse_power=pulse_power, hold_power=hold_power)\n\n        if self.config['max_hold_duration']:\n            self.delay.add_if_doesnt_exist(self.config['max_hold_duration'] * 1000, self._enable_limit_reached,\n                                           \"enable_limit_reached\")\n", "PAIR-10"),
         M("watchdog forgotten before the coil is switched off", "mpf/devices/driver.py", "        self.hw_driver.disable()\n        self.delay.remove(\"enable_limit_reached\")", "        self.delay.remove(\"enable_limit_reached\")\n        self.hw_driver.disable()", "PAIR-10"),
         M("flipper pulse clamped to the coil's limit", "mpf/devices/flipper.py", "            return int(pulse_ms * settings_factor)\n", "            pulse_ms = int(pulse_ms * settings_factor)\n            if self.config['main_coil'].config['max_pulse_ms']:\n                pulse_ms = min(pulse_ms, self.config['main_coil'].config['max_pulse_ms'])\n", "DOM-17"),
         M("zero-length delay runs at once", "mpf/core/delays.py", "        self.delays[name] = (self.machine.clock.schedule_once(\n            partial(self._process_delay_callback, name, callback, **kwargs),", "        if ms <= 0:\n            self._process_delay_callback(name, callback, **kwargs)\n            return name\n        self.delays[name] = (self.machine.clock.schedule_once(\n            partial(self._process_delay_callback, name, callback, **kwargs),", "PAIR-10"),
